@@ -726,6 +726,7 @@ def o_c10(recs):
 def o_c11(recs):
     bad = []
     last = None            # (hlog bytes at that time, parsed reflog)
+    mover = None           # the last command that changed a branch or HEAD
     for i, r in enumerate(recs):
         if not r.before.inited:
             continue
@@ -733,6 +734,8 @@ def o_c11(recs):
         if st.kind != "cmd":
             continue
         b, a = r.before, r.after
+        if a.refs != b.refs or a.head_raw != b.head_raw:
+            mover = st.name
         if b.hlog is not None and (a.hlog is None or not a.hlog.startswith(b.hlog)):
             bad.append((i, "logs/HEAD was rewritten, not appended to"))
         if st.name == "reflog":
@@ -756,8 +759,9 @@ def o_c11(recs):
                 if old and new[len(new) - len(old):] != old:
                     bad.append((i, "earlier reflog entries changed"))
             t = tip(b)
-            if ent and t is not None:
-                # newest entry of a commit/checkout/reset names the commit HEAD resolves to
+            if ent and t is not None and mover in ("commit", "switch", "switch-c", "reset"):
+                # right after a commit / switch / reset the newest entry names the commit HEAD resolves to
+                # (update-ref, branch --rename ... move things without that promise)
                 kind = ent[0][2].split(b" ")[0]
                 if kind in (b"commit", b"checkout", b"reset") and not t.hex().encode().startswith(ent[0][0]):
                     bad.append((i, "HEAD@{0} shows %r but HEAD resolves to %s" % (ent[0][0], t.hex()[:7])))
